@@ -100,7 +100,7 @@ def one(args):
     return res
 
 
-def run(props=None, only=None, jobs=12):
+def run(props=None, only=None, jobs=12, include_open=False):
     t0 = time.time()
     factsmod.get_facts(factsmod.REPO)  # make sure the reference invocation exists
     tmp = tempfile.mkdtemp(prefix="verif-selftest-")
@@ -138,8 +138,10 @@ def run(props=None, only=None, jobs=12):
                 continue
             work.append((tmp, base, "preserving", name, None, edits, props))
         # behaviour-preserving refactorings kept as patches (too large for a string edit)
-        pres_dir = os.path.join(os.path.dirname(HERE), "preserving")
-        if os.path.isdir(pres_dir):
+        # preserving_open/: deep restructurings some rules are still not robust against (DESIGN.md section 10);
+        # evaluated only on request (--open), moved to preserving/ once every check stays silent
+        dirs = [os.path.join(os.path.dirname(HERE), "preserving")] + ([os.path.join(os.path.dirname(HERE), "preserving_open")] if include_open else [])
+        for pres_dir in [d for d in dirs if os.path.isdir(d)]:
             for sd in sorted(os.listdir(pres_dir)):
                 pp = os.path.join(pres_dir, sd, "patch.diff")
                 name = "PP-" + sd
@@ -159,9 +161,10 @@ def main():
     ap.add_argument("--only")
     ap.add_argument("--jobs", type=int, default=12)
     ap.add_argument("--json")
+    ap.add_argument("--open", action="store_true", help="also run the restructurings in preserving_open/")
     a = ap.parse_args()
     props = a.props.split(",") if a.props else None
-    out, dt = run(props, a.only, a.jobs)
+    out, dt = run(props, a.only, a.jobs, a.open)
     bad = 0
     for r in out:
         line = "%-12s %-40s" % (r["status"], r["name"])
